@@ -40,6 +40,41 @@ Definition spec (ops : list op) : list item := fold_left spec_step ops [].
 
 Definition contents (s : t) : list item := inorder (root s).
 
+(* ---- items: bounds + payload tag (what GetAllIntervals really returns) ---- *)
+Notation titem := (Z * Z * Z)%type (only parsing).
+Definition key (x : titem) : item := (fst (fst x), snd (fst x)).
+Definition tag (x : titem) : Z := snd x.
+Definition stored (s : t) : list titem := items (root s).
+
+(* the items the history handed to the tree since the last Clear (inverted ones are ignored) *)
+Definition inserted_step (acc : list titem) (o : op) : list titem :=
+  match o with
+  | Insert lo hi tg => if lo >? hi then acc else acc ++ [(lo, hi, tg)]
+  | Delete _ _ => acc
+  | Clear => []
+  end.
+Definition inserted (ops : list op) : list titem := fold_left inserted_step ops [].
+
+(* item-level semantics of one operation.  Delete(lo,hi) removes ONE stored item with those
+   bounds -- any of them (the caller cannot name the payload: Delete reads bounds only) -- and
+   nothing when there is none. *)
+Definition item_step_rel (sp : list titem) (o : op) (sp' : list titem) : Prop :=
+  match o with
+  | Insert lo hi tg => sp' = if lo >? hi then sp else sp ++ [(lo, hi, tg)]
+  | Delete lo hi =>
+      (exists l1 y l2, sp = l1 ++ y :: l2 /\ key y = (lo, hi) /\ sp' = l1 ++ l2)
+      \/ ((forall y, In y sp -> key y <> (lo, hi)) /\ sp' = sp)
+  | Clear => sp' = []
+  end.
+
+(* `res` is one admissible item multiset after the history `ops` started from `sp` *)
+Fixpoint item_spec_from (sp : list titem) (ops : list op) (res : list titem) : Prop :=
+  match ops with
+  | [] => res = sp
+  | o :: ops' => exists sp1, item_step_rel sp o sp1 /\ item_spec_from sp1 ops' res
+  end.
+Definition item_spec (ops : list op) (res : list titem) : Prop := item_spec_from [] ops res.
+
 Definition pairwise_disjoint (l : list item) : Prop :=
   ForallOrdPairs (fun a b => overlaps a b = false) l.
 
